@@ -273,6 +273,15 @@ UNSUP_STMTS = [
     ("borrow-after-move", "bm2 = qubit()\ndiscard(bm2)\nh(bm2)"),
     ("subscript-move", "sm = array(qubit(), qubit())\nsm0 = sm[0]\ndiscard_array(sm)\ndiscard(sm0)"),
     ("pass", "pass"),
+    # comptime values whose SHAPE disagrees with the annotation they are checked against (the annotation is only a hint)
+    ("comptime-tuple-longer-than-annotation", "ct1: tuple[int, int] = comptime((1, 2, 3))"),
+    ("comptime-tuple-shorter-than-annotation", "ct2: tuple[int, int, int] = comptime((1, 2))"),
+    ("comptime-nested-tuple-longer", "ct3: tuple[tuple[int, int], int] = comptime(((1, 2, 3), 4))"),
+    ("comptime-empty-tuple-for-pair", "ct4: tuple[int, int] = comptime(())"),
+    ("comptime-list-longer-than-array", "ct5: array[int, 2] = comptime([1, 2, 3])"),
+    ("comptime-list-of-tuples-longer", "ct6: array[tuple[int, int], 1] = comptime([(1, 2, 3)])"),
+    ("comptime-tuple-as-argument", "ct7 = h2c(comptime((1, 2, 3)))"),
+    ("comptime-tuple-returned", "def ct8() -> tuple[int, int]:\n    return comptime((1, 2, 3))"),
     # a comprehension whose iterable mentions the name its own target binds: the iterable is evaluated in the
     # ENCLOSING scope, where that name is undefined / defined on some paths only / defined in an earlier block
     ("comp-self-named-undefined", "cs1 = array(zz + 1 for zz in zz)"),
